@@ -49,6 +49,7 @@ package types
 //@   ensures value: err == nil ==> (exists k int :: 0 <= k && k < len(s) && s[k] == '.' && len(s) - k - 1 <= 4 && len(s) - k - 1 >= 1 &&
 //@           d.value == pInt(s[0:k]) * 10000 + (s[0] == '-' ? -1 : 1) * pUint(s[k+1:len(s)], 16) * pow10(4 - (len(s) - k - 1)))
 //@   ensures class: err != nil ==> errIs(err, errDecimal)
+//@   ensures alphabet: err == nil ==> (s[0] == '-' || (48 <= s[0] && s[0] <= 57))
 
 //@ func (Decimal) String
 //@   props C12 C10
